@@ -266,6 +266,13 @@ BIGR_ENTRIES = [
     ["rnd/noise.bin", AE_IFREG, 0o644, 1, 2, 3000, bytes(_rnd.getrandbits(8) for _ in range(180000)), b"", b"", 7001, []],
     ["rnd/after.txt", AE_IFREG, 0o600, 1, 2, 3001, b"after the noise\n" * 3, b"", b"", 0, []],
 ]
+# names and link targets longer than the fixed header fields: GNU 'L'/'K' records, pax extended headers, ustar
+# prefix splitting, cpio/zip variable-length names
+LONG_ENTRIES = [
+    ["long/" + "n" * 95 + "/" + "m" * 200 + "/" + "k" * 120 + ".txt", AE_IFREG, 0o644, 1, 2, 4000, b"long name body\n" * 5, b"", b"", 0, []],
+    ["long/link", AE_IFLNK, 0o777, 1, 2, 4001, b"", b"t" * 90 + b"/" + b"u" * 210, b"", 0, []],
+    ["long/short.txt", AE_IFREG, 0o600, 1, 2, 4002, b"short\n", b"", b"", 0, []],
+]
 WRITER_SPECS = [
     ("ustar", "", "", STD_ENTRIES), ("pax", "", "", STD_ENTRIES), ("paxr", "", "", STD_ENTRIES),
     ("gnutar", "", "", STD_ENTRIES), ("v7tar", "", "", STD_ENTRIES),
@@ -281,6 +288,8 @@ WRITER_SPECS = [
     ("ustar", "", "", BIG_ENTRIES), ("newc", "", "", BIG_ENTRIES), ("zip", "", "zip:compression=store", BIG_ENTRIES),
     ("pax", "gzip", "", BIG_ENTRIES),
     ("pax", "", "", SPARSE_ENTRIES), ("paxr", "bzip2", "", SPARSE_ENTRIES),
+    ("gnutar", "", "", LONG_ENTRIES), ("pax", "", "", LONG_ENTRIES), ("newc", "", "", LONG_ENTRIES), ("zip", "", "", LONG_ENTRIES),
+    ("gnutar", "gzip", "", LONG_ENTRIES),
 ] + [("ustar", flt, "", BIGR_ENTRIES) for flt in ("compress", "gzip", "bzip2", "xz", "zstd", "lz4", "lzip", "lzma")] + [
     ("zip", "", "", BIGR_ENTRIES), ("7zip", "", "", BIGR_ENTRIES),
 ]
@@ -295,7 +304,7 @@ def writer_archives(mk_exe):
         v = vparse(l)
         if v[0] < -20 or v[-2] < -20:
             continue
-        res.append(("w:%s%s%s%s" % (f, "+" + flt if flt else "", "/" + opt if opt else "", "#big" if ents is BIG_ENTRIES else "#sparse" if ents is SPARSE_ENTRIES else "#noise" if ents is BIGR_ENTRIES else ""), v[-1]))
+        res.append(("w:%s%s%s%s" % (f, "+" + flt if flt else "", "/" + opt if opt else "", "#big" if ents is BIG_ENTRIES else "#sparse" if ents is SPARSE_ENTRIES else "#noise" if ents is BIGR_ENTRIES else "#long" if ents is LONG_ENTRIES else ""), v[-1]))
     return res
 
 def read_case(arc, source=(1,), rplan=(), has_skip=0, has_seek=0, faults=(), consume=(0, 4096, 0), noraw=0):
